@@ -9,19 +9,26 @@ All statements hold for every configuration, every state, every arrival time / p
 data and every operation sequence (no bound on lengths).
 -/
 import EdzedModel.Repeat
+import EdzedModel.Gen.TranslatedRepeat
 import EdzedProofs.Repeat
 
 namespace Edzed.Repeat
 
-/-- An event of the configured type arriving at `t` is forwarded in that very step as the last
-    thing sent, stamped `t`, with `repeat=0` (whatever was going on before, stopped or not),
-    and the output becomes 0. -/
+/-- An event of the configured type arriving at `t` is forwarded in that very step, stamped `t`,
+    with `repeat=0` (whatever was going on before, stopped or not): it is the last thing offered
+    to the destination in the step, after the timeouts preceding the arrival, whatever the answer;
+    with an accepting destination (`s.resp = []`) it is the last thing sent in the step and the
+    output becomes 0. -/
 theorem forward_immediately_repeat0 (c : Cfg) (s : State) (t : Nat) (pl : Placement) (data : Data) :
     (event c s t pl c.etype data).2 =
-        (advance c s (pl.horizon t)).2 ++ [⟨t, c.etype, 0, outData c (withOrig data) 0⟩]
-      ∧ (event c s t pl c.etype data).1.out = 0 := by
-  refine ⟨event_sends c s t pl data, ?_⟩
-  rw [event_state]
+        (advance c s (pl.horizon t)).2 ++
+          [⟨t, c.etype, 0, outData c (withOrig data) 0, (advance c s (pl.horizon t)).1.answer⟩]
+    ∧ (s.resp = [] →
+        (event c s t pl c.etype data).2 =
+          (advance c s (pl.horizon t)).2 ++ [⟨t, c.etype, 0, outData c (withOrig data) 0, .ok⟩]
+        ∧ (event c s t pl c.etype data).1.out = 0) := by
+  refine ⟨?_, fun h => ⟨event_sends c s t pl data h, by rw [event_state _ _ _ _ _ h]⟩⟩
+  simp only [event, arrive_head c (advance c s (pl.horizon t)).1 t data]
 
 /-- `n` is the number of repetitions due by time `t` for an event that arrived at `t0`:
     the `n`-th is due (`t0 + n·I ≤ t`), and either the count is exhausted or the next one
@@ -55,18 +62,19 @@ theorem dueBy_exists (c : Cfg) (hI : 0 < c.interval) (t0 t : Nat) (h : t0 ≤ t)
     the repetitions `k = 1 … n`, the `k`-th at `t0 + k·interval` with `repeat = k` and the data of
     that event, where `n` is the number due by `t` – limited by `count`; the output then shows `n`. -/
 theorem repetition_schedule (c : Cfg) (hI : 0 < c.interval) (s : State) (hs : s.stopped = false)
+    (hacc : s.resp = [])
     (t0 : Nat) (pl : Placement) (data : Data) (t n : Nat) (hn : DueBy c t0 t n) :
     (advance c (event c s t0 pl c.etype data).1 t).2 =
         (List.range n).map (fun k =>
-          ⟨t0 + (k + 1) * c.interval, c.etype, k + 1, outData c (withOrig data) (k + 1)⟩)
+          ⟨t0 + (k + 1) * c.interval, c.etype, k + 1, outData c (withOrig data) (k + 1), .ok⟩)
       ∧ (advance c (event c s t0 pl c.etype data).1 t).1.out = n := by
   obtain ⟨hcnt, hdue, hend⟩ := hn
-  rw [event_state, hs]
+  rw [event_state _ _ _ _ _ hacc, hs]
   by_cases hr : repeating c 0 = true
   · -- repeating: closed form of `advance`
     have key := advance_spec c hI t n
-      { out := 0, cur := some ⟨withOrig data, 0, t0 + c.interval⟩, stopped := false }
-      ⟨withOrig data, 0, t0 + c.interval⟩ rfl
+      { out := 0, cur := some ⟨withOrig data, 0, t0 + c.interval⟩, stopped := false, resp := [] }
+      ⟨withOrig data, 0, t0 + c.interval⟩ rfl rfl rfl
       (by
         intro k hk
         have : (k + 1) * c.interval ≤ n * c.interval := Nat.mul_le_mul_right _ (by omega)
@@ -122,16 +130,16 @@ theorem repetition_schedule (c : Cfg) (hI : 0 < c.interval) (s : State) (hs : s.
     placement's horizon: strictly before `t` for an arrival before / in the loop iteration of a
     timeout due at `t` (`B`, `T`: the explicit same-iteration rule), at most `t` for `A`. -/
 theorem newer_restarts_and_supersedes (c : Cfg) (s s' : State) (hst : s.stopped = s'.stopped)
-    (t : Nat) (pl : Placement) (data : Data) :
+    (hacc : s.resp = []) (hacc' : s'.resp = []) (t : Nat) (pl : Placement) (data : Data) :
     (event c s t pl c.etype data).1 = (event c s' t pl c.etype data).1
     ∧ (∀ ops, run c (event c s t pl c.etype data).1 ops = run c (event c s' t pl c.etype data).1 ops)
     ∧ (∀ x ∈ (event c s t pl c.etype data).2.dropLast,
         x.t ≤ t ∧ (pl ≠ .A → 0 < t → x.t < t)) := by
   have h1 : (event c s t pl c.etype data).1 = (event c s' t pl c.etype data).1 := by
-    rw [event_state, event_state, hst]
+    rw [event_state _ _ _ _ _ hacc, event_state _ _ _ _ _ hacc', hst]
   refine ⟨h1, fun ops => by rw [h1], ?_⟩
   intro x hx
-  rw [event_sends, List.dropLast_concat] at hx
+  rw [event_sends _ _ _ _ _ hacc, List.dropLast_concat] at hx
   have := advanceFuel_times c (pl.horizon t) _ s x hx
   cases pl <;> simp only [Placement.horizon] at this <;> refine ⟨by omega, ?_⟩ <;> intro h ht
   · omega
@@ -162,9 +170,10 @@ theorem data_preserved_source_rewritten (c : Cfg) (d : Data) (rep : Nat) :
 
 /-- … and every event a block ever sends (from its initial state, any operation sequence) has
     that shape for the data `d` of one of the received events, with the configured event type. -/
-theorem every_send_is_a_received_event (c : Cfg) (ops : List Op) :
-    ∀ x ∈ (run c {} ops).2, x.etype = c.etype ∧ ∃ d ∈ eventData ops, x.data = outData c (withOrig d) x.rep :=
-  run_shape c (eventData ops) ops {} (by intro p hp; cases hp) (fun _ h => h)
+theorem every_send_is_a_received_event (c : Cfg) (answers : List Resp) (ops : List Op) :
+    ∀ x ∈ (run c { resp := answers } ops).2,
+      x.etype = c.etype ∧ ∃ d ∈ eventData ops, x.data = outData c (withOrig d) x.rep :=
+  run_shape c (eventData ops) ops { resp := answers } (by intro p hp; cases hp) (fun _ h => h)
 
 /-- The output equals the repeat number of the last event sent (the previous output if nothing
     was sent), after every operation sequence from every state; initially it is 0. -/
@@ -178,13 +187,13 @@ theorem output_is_repeat (c : Cfg) (s : State) (ops : List Op) :
 /-- After the stop nothing is re-sent: time alone produces nothing, and whatever operation
     sequence follows, every event sent is the immediate forward (`repeat=0`) of an event that
     arrived at that instant. -/
-theorem nothing_after_stop (c : Cfg) (s : State) :
+theorem nothing_after_stop (c : Cfg) (s : State) (hacc : s.resp = []) :
     (∀ t, advance c (stop s) t = (stop s, []))
     ∧ ∀ ops, ∀ x ∈ (run c (stop s) ops).2,
         x.rep = 0 ∧ ∃ pl d, Op.event x.t pl c.etype d ∈ ops := by
   refine ⟨fun t => advance_none c _ t rfl, ?_⟩
   intro ops x hx
-  rw [run_stopped c (stop s) ops rfl rfl] at hx
+  rw [run_stopped c (stop s) ops rfl rfl hacc] at hx
   obtain ⟨op, hop, hx⟩ := List.mem_flatMap.mp hx
   cases op with
   | event t pl e d =>
@@ -205,12 +214,12 @@ theorem nothing_after_stop (c : Cfg) (s : State) :
     More generally, whatever the first block sends – including its repetitions `repeat=k` – is
     forwarded by the second block at the same instant with `repeat=0`. -/
 theorem chain_of_two (c1 c2 : Cfg) (hty : c2.etype = c1.etype) (ch : Chain) (t : Nat) (pl : Placement)
-    (data : Data) (flags : List Bool) (r : Chain × List Sent)
+    (data : Data) (flags : List Bool) (r : Chain × List Sent) (hacc : ch.s1.resp = [])
     (hr : Chain.event c1 c2 ch t pl c1.etype data flags = some r) :
-    (⟨t, c2.etype, 0, outData c2 (withOrig (outData c1 (withOrig data) 0)) 0⟩ : Sent) ∈ r.2
+    (∃ a, (⟨t, c2.etype, 0, outData c2 (withOrig (outData c1 (withOrig data) 0)) 0, a⟩ : Sent) ∈ r.2)
     ∧ r.1.s1.out = 0
     ∧ (∀ x ∈ (event c1 ch.s1 t pl c1.etype data).2,
-        (⟨x.t, c2.etype, 0, outData c2 (withOrig x.data) 0⟩ : Sent) ∈ r.2)
+        ∃ a, (⟨x.t, c2.etype, 0, outData c2 (withOrig x.data) 0, a⟩ : Sent) ∈ r.2)
     ∧ ∀ k j, (outData c2 (withOrig (outData c1 (withOrig data) k)) j).get? "repeat" = some (Val.int j)
         ∧ (outData c2 (withOrig (outData c1 (withOrig data) k)) j).get? "source" = some (Val.str c2.name)
         ∧ (outData c2 (withOrig (outData c1 (withOrig data) k)) j).get? "orig_source" = some (Val.str c1.name)
@@ -221,21 +230,26 @@ theorem chain_of_two (c1 c2 : Cfg) (hty : c2.etype = c1.etype) (ch : Chain) (t :
   · next s2' ys hfeed =>
     cases hr
     have hall : ∀ x ∈ (event c1 ch.s1 t pl c1.etype data).2,
-        (⟨x.t, c2.etype, 0, outData c2 (withOrig x.data) 0⟩ : Sent) ∈ ys := by
+        ∃ a, (⟨x.t, c2.etype, 0, outData c2 (withOrig x.data) 0, a⟩ : Sent) ∈ ys := by
       intro x hx
       have hshape : x.etype = c2.etype := by
         rw [hty]
-        rw [event_sends] at hx
+        rw [event_sends _ _ _ _ _ hacc] at hx
         rcases List.mem_append.mp hx with h | h
         · exact advanceFuel_etype c1 _ _ _ x h
         · simp only [List.mem_singleton] at h; subst h; rfl
       exact feed_forwards c2 _ _ _ _ _ hfeed x hx hshape
     refine ⟨?_, ?_, ?_, ?_⟩
-    · apply List.mem_append_left
-      exact hall _ (event_forward_mem c1 ch.s1 t pl data)
+    · have hm : (⟨t, c1.etype, 0, outData c1 (withOrig data) 0, .ok⟩ : Sent) ∈
+          (event c1 ch.s1 t pl c1.etype data).2 := by
+        rw [event_sends _ _ _ _ _ hacc]; simp
+      obtain ⟨a, ha⟩ := hall _ hm
+      exact ⟨a, List.mem_append_left _ ha⟩
     · show (event c1 ch.s1 t pl c1.etype data).1.out = 0
-      rw [event_state]
-    · intro x hx; exact List.mem_append_left _ (hall x hx)
+      rw [event_state _ _ _ _ _ hacc]
+    · intro x hx
+      obtain ⟨a, ha⟩ := hall x hx
+      exact ⟨a, List.mem_append_left _ ha⟩
     · intro k j
       obtain ⟨a1, a2, a3, a4⟩ := data_preserved_source_rewritten c2 (outData c1 (withOrig data) k) j
       obtain ⟨b1, b2, b3, b4⟩ := data_preserved_source_rewritten c1 data k
@@ -244,6 +258,107 @@ theorem chain_of_two (c1 c2 : Cfg) (hty : c2.etype = c1.etype) (ch : Chain) (t :
       · intro key h1 h2 h3
         rw [a4 key h1 h2 h3, b4 key h1 h2 h3]
   · cases hr
+
+/-! ### destinations that refuse a delivery
+
+`Repeat._event` forwards the event synchronously and queues it for the main task only AFTERWARDS
+(`send`, then `self._queue.put_nowait(data)`): an exception of the forward leaves the handler
+before anything is queued. -/
+
+/-- An event whose original forwarding the destination refuses with `EdzedUnknownEvent` (the
+    destination does not know the event type) is never repeated and disturbs nothing:
+    (a) apart from the output 0 and the consumed answer the state is the one just before the
+    arrival – NO ITEM IS QUEUED, the block is not stopped (the simulation runs on), an event that
+    was being repeated goes on with its own schedule and numbering;
+    (b) the sender is told (`Ret.unknown`), the step sends the due older repetitions and this one
+    refused forward;
+    (c) if nothing was being repeated, then whatever time passes nothing is sent. -/
+theorem refused_event_never_repeated (c : Cfg) (s : State) (t : Nat) (pl : Placement) (data : Data)
+    (h : (advance c s (pl.horizon t)).1.answer = .unknown) :
+    (event c s t pl c.etype data).1 =
+        { (advance c s (pl.horizon t)).1 with
+            out := 0, resp := (advance c s (pl.horizon t)).1.resp.tail }
+    ∧ (event c s t pl c.etype data).2 =
+        (advance c s (pl.horizon t)).2 ++ [⟨t, c.etype, 0, outData c (withOrig data) 0, .unknown⟩]
+    ∧ (deliver c s t pl c.etype data false).2.2 = .unknown
+    ∧ ((advance c s (pl.horizon t)).1.cur = none →
+        ∀ t', (advance c (event c s t pl c.etype data).1 t').2 = []) := by
+  have hst : (event c s t pl c.etype data).1 =
+      { (advance c s (pl.horizon t)).1 with
+          out := 0, resp := (advance c s (pl.horizon t)).1.resp.tail } := by
+    simp only [event, arrive_unknown _ _ _ _ h]
+  refine ⟨hst, by simp only [event, arrive_unknown _ _ _ _ h], ?_, ?_⟩
+  · simp [deliver, h]
+  · intro hn t'
+    rw [hst, advance_none _ _ _ (by simpa using hn)]
+
+/-- the same for a block that is idle: the refused event leaves no trace but the output 0 -/
+theorem refused_first_forward_leaves_idle (c : Cfg) (rs : List Resp) (t : Nat) (pl : Placement)
+    (data : Data) :
+    (event c { resp := .unknown :: rs } t pl c.etype data).1 = { resp := rs } := by
+  have h0 : advance c { resp := .unknown :: rs } (pl.horizon t) = ({ resp := .unknown :: rs }, []) :=
+    advance_none _ _ _ rfl
+  have h := (refused_event_never_repeated c { resp := .unknown :: rs } t pl data
+    (by rw [h0]; rfl)).1
+  rw [h, h0]
+  rfl
+
+/-- A repetition the destination refuses – for whatever reason – is the last thing the block
+    does: the exception is raised inside the monitored main task, the simulation is aborted
+    (block stopped, nothing pending), the output shows the number of the failed repetition. -/
+theorem refused_repetition_stops_simulation (c : Cfg) (s : State) (p : Pending) (t : Nat)
+    (hs : s.cur = some p) (hd : p.deadline ≤ t) (ha : s.answer ≠ .ok) :
+    advance c s t =
+      ({ out := p.rep + 1, cur := none, stopped := true, resp := s.resp.tail },
+       [⟨p.deadline, c.etype, p.rep + 1, outData c p.data (p.rep + 1), s.answer⟩]) := by
+  have hf : fire c s p =
+      ({ out := p.rep + 1, cur := none, stopped := true, resp := s.resp.tail },
+       ⟨p.deadline, c.etype, p.rep + 1, outData c p.data (p.rep + 1), s.answer⟩) := by
+    unfold fire
+    split
+    · next e => exact absurd e ha
+    · rfl
+  simp only [advance, advanceFuel, hs, if_pos hd, hf]
+  rw [advanceFuel_none _ _ _ _ rfl]
+
+/-- A forward that fails with any other exception aborts the simulation (the exception passes
+    through `Repeat`'s own `SBlock.event`): the block is stopped, nothing is queued for the
+    event; at most a timeout of that very instant (deadline `≤ t`, the event that was being
+    repeated) is still on its way, and once it has fired nothing is pending. -/
+theorem failed_forward_stops_simulation (c : Cfg) (s : State) (t : Nat) (pl : Placement) (data : Data)
+    (h : (advance c s (pl.horizon t)).1.answer = .fatal) :
+    (event c s t pl c.etype data).1.stopped = true
+    ∧ (∀ p, (event c s t pl c.etype data).1.cur = some p →
+        (advance c s (pl.horizon t)).1.cur = some p ∧ p.deadline ≤ t)
+    ∧ (deliver c s t pl c.etype data false).2.2 = .fatal
+    ∧ ∀ (st : State) (p : Pending), st.stopped = true → (fire c st p).1.cur = none := by
+  refine ⟨?_, ?_, by simp [deliver, h], ?_⟩
+  · simp only [event, arrive, bne_self_eq_false, Bool.false_eq_true, if_false, h]
+  · intro p hp
+    simp only [event, arrive, bne_self_eq_false, Bool.false_eq_true, if_false, h] at hp
+    split at hp
+    · next q hq =>
+      split at hp
+      · next hd => cases hp; exact ⟨hq, hd⟩
+      · cases hp
+    · cases hp
+  · intro st p hst
+    unfold fire
+    split
+    · simp [hst]
+    · rfl
+
+/-- `deliver` is `event` plus the result for the sender; an external event (`ExtEvent.send`) is
+    refused without reaching the block once the simulation is not running -/
+theorem deliver_is_event (c : Cfg) (s : State) (t : Nat) (pl : Placement) (etype : String) (data : Data) :
+    ((deliver c s t pl etype data false).1, (deliver c s t pl etype data false).2.1) =
+        event c s t pl etype data
+    ∧ ((advance c s (pl.horizon t)).1.stopped = true →
+        deliver c s t pl etype data true =
+          ((advance c s (pl.horizon t)).1, (advance c s (pl.horizon t)).2, .notReady)) := by
+  constructor
+  · simp [deliver, event]
+  · intro h; simp [deliver, h]
 
 /-! ### non-vacuity: concrete runs (interval 10 µs) -/
 
@@ -262,6 +377,20 @@ example : ((run ⟨"r", "put", 10, some 3⟩ {}
       [.event 5 .T "put" [], .event 35 .A "put" [], .advance 50]).2.map fun x => (x.t, x.rep)) =
     [(5, 0), (15, 1), (25, 2), (35, 3), (35, 0), (45, 1)] := by decide +kernel
 
+/-- a destination refusing deliveries: the event at 5 is accepted and repeated; the one at 18 is
+    refused with EdzedUnknownEvent (third answer) – it is never repeated and the first event goes
+    on (`repeat=2` at 25); the repetition at 35 fails (fifth answer): the block is stopped -/
+example : ((run ⟨"r", "put", 10, none⟩ { resp := [.ok, .ok, .unknown, .ok, .fatal] }
+      [.event 5 .A "put" [("value", Val.int 1)], .event 18 .T "put" [("value", Val.int 2)],
+       .advance 100]).2.map fun x => (x.t, x.rep, x.data.get? "value", x.resp)) =
+    [(5, 0, some (Val.int 1), Resp.ok), (15, 1, some (Val.int 1), Resp.ok),
+     (18, 0, some (Val.int 2), Resp.unknown), (25, 2, some (Val.int 1), Resp.ok),
+     (35, 3, some (Val.int 1), Resp.fatal)] := by decide +kernel
+
+example : (run ⟨"r", "put", 10, none⟩ { resp := [.ok, .ok, .unknown, .ok, .fatal] }
+      [.event 5 .A "put" [("value", Val.int 1)], .event 18 .T "put" [("value", Val.int 2)],
+       .advance 100]).1 = { out := 3, cur := none, stopped := true, resp := [] } := by decide +kernel
+
 example : DueBy ⟨"r", "put", 10, some 3⟩ 5 1000 3 := by
   refine ⟨?_, by decide, Or.inl rfl⟩
   intro m e; cases e; exact Nat.le_refl _
@@ -276,3 +405,73 @@ example : ((Chain.event ⟨"r1", "put", 10, some 1⟩ ⟨"r2", "put", 4, none⟩
           (15, 0, some (Val.str "r1")), (19, 1, some (Val.str "r1"))] := by decide +kernel
 
 end Edzed.Repeat
+
+/-! ### tie by translation (`tools/py2lean_repeat.py`, scheme `TrAct`)
+
+`Gen.TrR.repeatEventActs` is the list of primitive actions of `Repeat._event`, translated from
+the current source in program order. -/
+
+namespace Edzed.Repeat.TrTie
+
+open Edzed.Repeat Edzed.Gen.TrR
+
+/-- What a list of primitive actions of the handler does at time `t` to a block in state `s`
+    holding the event data `d`.  `send` offers the event to the destination, whose answer is the
+    next one of the script; when it REFUSES, the exception leaves the handler and the rest of the
+    list is skipped (`unknown`: nothing else happens; `fatal`: `SBlock.event` of the Repeat block
+    aborts the simulation – a timeout of that very instant is still on its way).  `enqueue`: the
+    main task takes the item in the same instant and starts to wait for `interval`. -/
+def runActs (c : Cfg) (t : Nat) : State → Data → List Act → State × List Sent
+  | s, _, [] => (s, [])
+  | s, _, .ret :: _ => (s, [])
+  | s, d, .warnOnce :: r => runActs c t s d r
+  | s, d, .setItemFromItem dst src :: r => runActs c t s (d.set dst ((d.get? src).getD Val.none)) r
+  | s, d, .setOutput n :: r => runActs c t { s with out := n } d r
+  | s, d, .send rep :: r =>
+    let x : Sent := ⟨t, c.etype, rep, outData c d rep, s.answer⟩
+    match s.answer with
+    | .ok => let q := runActs c t { s with resp := s.resp.tail } d r; (q.1, x :: q.2)
+    | .unknown => ({ s with resp := s.resp.tail }, [x])
+    | .fatal =>
+      ({ s with
+          cur := match s.cur with
+            | some p => if p.deadline ≤ t then some p else none
+            | none => none
+          stopped := true
+          resp := s.resp.tail }, [x])
+  | s, d, .enqueue :: r =>
+    runActs c t { s with cur := if !s.stopped && repeating c 0 then some ⟨d, 0, t + c.interval⟩ else none } d r
+
+/-- the model's handler `arrive` IS the meaning of the actions of `Repeat._event`, translated from the source -/
+theorem translated_event_is_model (c : Cfg) (s : State) (t : Nat) (etype : String) (data : Data) :
+    runActs c t s data (repeatEventActs (etype != c.etype)) = arrive c s t etype data := by
+  unfold repeatEventActs arrive
+  cases h : (etype != c.etype)
+  · cases hr : s.resp with
+    | nil => simp [runActs, withOrig, State.answer, hr]
+    | cons a rs =>
+      cases a <;> simp [runActs, withOrig, State.answer, hr]
+      cases s.cur <;> rfl
+  · simp [runActs]
+
+/-- In the source the synchronous forward PRECEDES the queueing, which is the last action: an
+    exception of the forward leaves the handler before anything is queued. -/
+theorem send_precedes_queue :
+    ∃ pre, repeatEventActs false = pre ++ [Act.send 0, Act.enqueue]
+      ∧ Act.enqueue ∉ pre ∧ ∀ n, Act.send n ∉ pre := by
+  refine ⟨[Act.setItemFromItem "orig_source" "source", Act.setOutput 0], rfl, by decide, ?_⟩
+  intro n; simp
+
+/-- … hence, by the meaning of the translated actions: a refused forward queues nothing -/
+theorem translated_refused_forward_queues_nothing (c : Cfg) (s : State) (t : Nat) (data : Data)
+    (h : s.answer = .unknown) :
+    (runActs c t s data (repeatEventActs false)).1.cur = s.cur
+    ∧ (runActs c t s data (repeatEventActs false)).1.stopped = s.stopped := by
+  unfold repeatEventActs
+  cases hr : s.resp with
+  | nil => simp [State.answer, hr] at h
+  | cons a rs =>
+    cases a <;> simp [State.answer, hr] at h
+    simp [runActs, State.answer, hr]
+
+end Edzed.Repeat.TrTie
